@@ -403,6 +403,7 @@ func TestC08Watcher(t *testing.T) {
 	_ = os.MkdirAll(stage, 0o755)
 	cache, _ := cdi.NewCache(cdi.WithSpecDirs(dir), cdi.WithAutoRefresh(true))
 	defer cache.Configure(cdi.WithAutoRefresh(false))
+	undecidedIfNoInotify(t, cache)
 	cur := filepath.Join(os.Getenv("VERIF_REPLAY_DIR"), fmt.Sprintf("C08-current-%d.json", os.Getpid()))
 	seq := 0
 	rapid.Check(t, func(t *rapid.T) {
